@@ -10,6 +10,12 @@
 //   H id X Y hash r s         sm2.Verify(pub(X,Y), hash, r, s)                -> ok 1 | ok 0
 //   P id X Y msg sig          pub(X,Y).Verify(msg, sig)                       -> ok 1 | ok 0
 //   D id X Y uid msg          pub(X,Y).Sm3Digest(msg, uid)                    -> ok <digest-hex> | err
+//   C id d g m streams msgs   concurrent leg: g goroutines released together, goroutine j signs its m messages
+//                             msgs[j*m .. j*m+m-1] one after the other with sm2.Sm2Sign(key(d), msg, nil, rd_j), rd_j its
+//                             OWN deterministic reader over streams[j] whose Read yields the processor (Gosched + a few
+//                             microseconds of sleep) after delivering the bytes and before returning; no buffer is shared
+//                             by the harness.  streams and msgs are comma separated hex lists.
+//                             -> ok <e_0> ... <e_{g-1}>,  e_j = r.s,r.s,.../consumed  or  err   (one field per goroutine)
 // Observation lines:  id ok <fields> | id err | id PANIC | id HANG
 //
 // If the environment variable C01_NOTES names a file, gen also writes one line "id<TAB>op<TAB>expect<TAB>what" per case
@@ -24,8 +30,10 @@ import (
 	"io"
 	"math/big"
 	"os"
+	"runtime"
 	"strconv"
 	"strings"
+	"sync"
 	"time"
 
 	"github.com/tjfoc/gmsm/sm2"
@@ -102,6 +110,73 @@ func (r *reader) Read(p []byte) (int, error) {
 
 const deadline = 20 * time.Second
 
+// reader of the concurrent leg: hands out its own stream, then lets other goroutines run before the
+// call returns (the bytes are already in the caller's buffer at that point)
+type yieldReader struct {
+	rem      []byte
+	consumed int
+	pause    time.Duration
+}
+
+func (r *yieldReader) Read(p []byte) (int, error) {
+	if len(r.rem) == 0 {
+		return 0, io.EOF
+	}
+	n := copy(p, r.rem)
+	r.rem = r.rem[n:]
+	r.consumed += n
+	runtime.Gosched()
+	time.Sleep(r.pause)
+	runtime.Gosched()
+	return n, nil
+}
+
+// runConcurrent: g goroutines, each with its own key object, reader, messages and result slot
+func runConcurrent(d *big.Int, g, m int, streams, msgs [][]byte) string {
+	if len(streams) != g || len(msgs) != g*m {
+		return "BADCASE"
+	}
+	results := make([]string, g)
+	start := make(chan struct{})
+	var wg sync.WaitGroup
+	for j := 0; j < g; j++ {
+		wg.Add(1)
+		go func(j int) {
+			defer wg.Done()
+			defer func() {
+				if e := recover(); e != nil {
+					results[j] = "PANIC"
+				}
+			}()
+			priv := key(d)
+			rd := &yieldReader{rem: append([]byte{}, streams[j]...), pause: time.Duration(15+9*(j%7)) * time.Microsecond}
+			mine := make([][]byte, m)
+			for i := range mine {
+				mine[i] = append([]byte{}, msgs[j*m+i]...)
+			}
+			<-start
+			parts := make([]string, 0, m)
+			for i := 0; i < m; i++ {
+				r, s, err := sm2.Sm2Sign(priv, mine[i], nil, rd)
+				if err != nil {
+					results[j] = "err"
+					return
+				}
+				parts = append(parts, zs(r)+"."+zs(s))
+			}
+			results[j] = strings.Join(parts, ",") + "/" + strconv.Itoa(rd.consumed)
+		}(j)
+	}
+	close(start)
+	wg.Wait()
+	for _, r := range results {
+		if r == "PANIC" {
+			return "PANIC"
+		}
+	}
+	return "ok " + strings.Join(results, " ")
+}
+
 func b2s(b bool) string {
 	if b {
 		return "ok 1"
@@ -140,6 +215,10 @@ func runCase(line string) string {
 				return "err"
 			}
 			return "ok " + hx.Hex(dg)
+		case "C":
+			g, _ := strconv.Atoi(f[3])
+			m, _ := strconv.Atoi(f[4])
+			return runConcurrent(unz(f[2]), g, m, hx.UnHexList(f[5]), hx.UnHexList(f[6]))
 		}
 		return "BADCASE"
 	})
@@ -797,6 +876,28 @@ func gen(seed uint64, tier string, o *hx.Out) {
 			}
 		} else {
 			g.P(k.X, k.Y, msg, strictDER(r, s), "rej", b.descr+" strict DER of a signature under another uid")
+		}
+	}
+
+	// ---- concurrent leg: several signers at once, each on its own stream ----
+	nConc := 2
+	if thorough {
+		nConc = 8
+	}
+	for rep := 0; rep < nConc; rep++ {
+		for _, gm := range [][2]int{{2, 8}, {8, 8}, {32, 4}} {
+			ng, nm := gm[0], gm[1]
+			k := mkKey("d-rnd", g.randBelow(new(big.Int).Sub(nOrd, big.NewInt(1)), 40))
+			streams := make([][]byte, ng)
+			msgs := make([][]byte, ng*nm)
+			for j := range streams {
+				streams[j] = g.r.Bytes(40*nm + g.r.Intn(3)*13)
+			}
+			for j := range msgs {
+				msgs[j] = g.r.Bytes(1 + g.r.Intn(40))
+			}
+			g.emit(fmt.Sprintf("C %d %s %d %d %s %s", g.next(), zs(k.d), ng, nm, hx.HexList(streams), hx.HexList(msgs)),
+				"any", fmt.Sprintf("concurrent: %d goroutines x %d signatures, own streams", ng, nm))
 		}
 	}
 
